@@ -6,6 +6,16 @@ import subprocess
 ROOT = os.path.dirname(os.path.dirname(os.path.abspath(__file__)))
 
 CHECKS = {
+    "C20": dict(
+        technique="TLA+ specification of the connectivity builders with the random draws as nondeterministic choice "
+                  "(Connect.tla); TLC enumerates every call and every outcome; spec->code replay with forced draws "
+                  "(numpy.random patched inside the call); code->spec check of outcomes under real seeds",
+        category="model_checking", design="4/C20",
+        text="Population sizes 1..3 x 1..3 (equal and unequal, contiguous and not), every boolean matrix, every outcome of "
+             "sparse_connect with 0..2 [thorough 3] sampled connections: the real builder must create exactly the bag of (pre cell, "
+             "post cell) pairs the specification states, with the pre site at the first compartment of the pre cell and the post "
+             "site inside the intended post cell, and must not raise.",
+        note="Trusted: TLC; the post compartment is any compartment of the post cell."),
     "C16": dict(
         technique="TLA+ specification of the reader's conventions (Swc.tla) whose state machine grows every well-formed SWC "
                   "file point by point under TLC; each enumerated file is written to disk and read by swc_to_jaxley / read_swc "
